@@ -77,6 +77,8 @@ def gen_model(rng, name, depth, lib, top):
         for v in range(rng.randint(1, 3)):
             base = ['a', 'b', 'c'][v]
             n = rng.choice([1, 1, 2, 3, 4])
+            if v == 0 and rng.random() < 0.12:
+                n = rng.choice([10, 11, 12, 13])     # indices with two digits
             if n == 1:
                 m['inputs'].append(base)
             else:
